@@ -4,6 +4,7 @@ package main
 //
 //   rank cmp <rank> <rank> <tac>                       => 0|1            (rank = p0.p1.p2.p3.index)
 //   rank merge <sorted> <tac> <lists> <probes>         => <item index at each probe>  (lists ";"-joined, ranks "&"-joined)
+//   rank frozen <pushes> <snapAt> <tail>  => <snapshots when taken> <the same snapshots re-read at the end>
 //   rank pass <pushes> <snapAt> <tail> <tac> <probes>  => <snapshots> <counts> <probe results>
 //   rank slice <partitions> <numChunks>                => slices ";"-joined chunk numbers
 //   rank points <scheme> <criteria> <line> <offsets> <score> => p0.p1.p2.p3
@@ -81,6 +82,31 @@ func rankEval(op string, a []string) string {
 			snapStr = strings.Join(ss, ";")
 		}
 		return fmt.Sprintf("%s %s %s", snapStr, encInts(counts), encInts(gs))
+	case "frozen":
+		atTime, atEnd := fzf.VerifChunkFrozen(atoi(a[0]), decInts(a[1]), atoi(a[2]))
+		enc := func(snaps [][][]int32) string {
+			ss := []string{}
+			for _, s := range snaps {
+				cs := []string{}
+				for _, c := range s {
+					xs := make([]int, len(c))
+					for i, v := range c {
+						xs[i] = int(v)
+					}
+					cs = append(cs, encInts(xs))
+				}
+				if len(cs) == 0 {
+					ss = append(ss, "_")
+				} else {
+					ss = append(ss, strings.Join(cs, "|"))
+				}
+			}
+			if len(ss) == 0 {
+				return "_"
+			}
+			return strings.Join(ss, ";")
+		}
+		return enc(atTime) + " " + enc(atEnd)
 	case "slice":
 		parts := []string{}
 		for _, s := range fzf.VerifSliceChunks(atoi(a[0]), atoi(a[1])) {
@@ -204,6 +230,13 @@ func rankGen(r *rand.Rand, count int, emit func(op string, args ...string)) {
 				probes = append(probes, 0, eff-1)
 			}
 			emit("pass", itoa(pushes), encInts(snapAt), itoa(tail), itoa(r.Intn(2)), encInts(probes))
+			// the same list, with snapshots taken early and re-read after everything else
+			early := []int{}
+			for k := 0; k < 1+r.Intn(4); k++ {
+				early = append(early, r.Intn(pushes+1))
+			}
+			sort.Ints(early)
+			emit("frozen", itoa(pushes), encInts(early), itoa(tail))
 		case 4:
 			emit("slice", itoa(1+r.Intn(40)), itoa(r.Intn(300)))
 		default:
